@@ -2,7 +2,7 @@
 CONSTANTS
   MaxNodes = 3
   MaxDepth = 3
-  Kinds = {"text", "el", "slot", "hcomment", "gcomment", "mcomment", "gocodeml", "raw", "call", "gocode", "doctype"}
+  Kinds = {"text", "el", "slot", "hcomment", "gcomment", "mcomment", "gocodeml", "raw", "call", "gocode", "gocodei", "doctype"}
   InlineNames = {"span"}
   BlockNames = {"div"}
   VoidNames = {"br"}
